@@ -18,6 +18,8 @@ TRIAGE = [
     (r'^ondense-strict[45]-(Once|Historically)TimedOperation$', EQ, 'pop loop: ties may be popped or kept; the bottom segment never starts at b0'),
     (r'^ondense-(minmax|inf|swapargs)-SinceOperation', None, 'outside the claim: dense-time online untimed since is listed as undecided in C05'),
     (r'^ondense-merge-cmp', None, 'outside the claim: remainder loops of the online merge kernel (closing-sample bookkeeping); only operand order is decided there'),
+    (r'^hor-ltl-(delete-LtlHorizon\.visit(Strong)?Next|plus-visit(Strong)?Next|minmax-visit(Strong)?Next)$', EQ, 'LtlHorizon.visitNext/visitStrongNext are overridden by StlHorizon since the sampling-period repair'),
+    (r'^revert-fix-210c934$', EQ, 'the LtlHorizon handlers this commit repaired are overridden by StlHorizon since the sampling-period repair'),
     (r'^past-(stl|ltl)-delete-', EQ, 'for C03: the other pastifier class in the MRO still handles the node (LTL style delays with a chain of prev: same values for i >= h)'),
 ]
 out = {}
